@@ -144,10 +144,8 @@ func (e *Enum) Mine() bool {
 	if !e.r.OwnsIndex(i) {
 		return false
 	}
-	if i%256 == 0 && !e.r.TimeLeft() {
-		if e.St.Capped == "" {
-			e.St.Capped = fmt.Sprintf("wall budget reached after %d cases", e.St.Executions)
-		}
+	if e.St.Capped == "" && !e.r.TimeLeft() {
+		e.St.Capped = fmt.Sprintf("wall budget reached after %d cases", e.St.Executions)
 	}
 	return e.St.Capped == ""
 }
